@@ -198,6 +198,55 @@ def tr_target(v, name):
     raise Unsupported(f"alias value {ast.dump(v)}")
 
 
+def translate_compare_spans_lenient(path: Path):
+    """Second chance when the module is not written in the shape `translate_compare_spans` reads statement by
+    statement (e.g. the aliases are registered by a helper function instead of `compare_spans.update({...})`):
+    the 162 lambdas are still read from the SOURCE of the dict literal assigned to `compare_spans` (wherever it
+    stands at top level), and the aliases are read from the module once executed — an alias is a key whose value IS
+    (same function object) the value of a key of the literal. Anything else (a key bound to a function that is not
+    one of the literal's) is still unsupported. The agreement of the translated lambdas with the real ones is checked
+    by harness/c08.py on every run, as in the strict mode."""
+    import runpy
+
+    src = path.read_text(encoding="utf-8")
+    tree = ast.parse(src)
+    table = None
+    for node in tree.body:
+        if isinstance(node, ast.Assign) or (isinstance(node, ast.AnnAssign) and node.value):
+            targets = node.targets if isinstance(node, ast.Assign) else [node.target]
+            if len(targets) == 1 and isinstance(targets[0], ast.Name) and targets[0].id == "compare_spans":
+                if table is not None:
+                    raise Unsupported("compare_spans rebound")
+                if not isinstance(node.value, ast.Dict):
+                    raise Unsupported("compare_spans is not a dict literal")
+                table = {}
+                for k, v in zip(node.value.keys, node.value.values):
+                    if not (isinstance(k, ast.Constant) and isinstance(k.value, str)):
+                        raise Unsupported("non-literal key")
+                    table[k.value] = tr_lambda(v)
+    if table is None:
+        raise Unsupported("no compare_spans dict literal")
+    final = runpy.run_path(str(path)).get("compare_spans")
+    if not isinstance(final, dict):
+        raise Unsupported("compare_spans is not a dict once the module is executed")
+    missing = [k for k in table if k not in final]
+    if missing:
+        raise Unsupported(f"keys of the literal missing at run time: {missing[:3]}")
+    by_id = {}
+    for k in table:
+        by_id.setdefault(id(final[k]), k)
+    if len(by_id) != len(table):
+        raise Unsupported("two keys of the literal share one function at run time")
+    updates = []
+    for k, f in final.items():
+        if k in table:
+            continue
+        if not isinstance(k, str) or id(f) not in by_id:
+            raise Unsupported(f"key {k!r} is bound to a function that is not an entry of the literal")
+        updates.append((k, by_id[id(f)]))
+    return list(table.items()), ([updates] if updates else [])
+
+
 def gen_compare_spans():
     path = REPO / "paroxython" / "compare_spans.py"
     lines = [
@@ -208,7 +257,12 @@ def gen_compare_spans():
     ]
     info = {"source": str(path)}
     try:
-        table, updates = translate_compare_spans(path.read_text(encoding="utf-8"))
+        try:
+            table, updates = translate_compare_spans(path.read_text(encoding="utf-8"))
+            info["mode"] = "strict (every top-level statement read from the source)"
+        except Unsupported as strict_exc:
+            table, updates = translate_compare_spans_lenient(path)
+            info["mode"] = f"lenient (lambdas from the source, aliases from the executed module): {strict_exc}"
         lines.append("def translatorOk : Bool := true")
         lines.append("def table : List (Codes × PyExpr) := [")
         lines.append(",\n".join(f"  ({codes(k)}, {e}) /- {k} -/" for k, e in table))
@@ -222,7 +276,7 @@ def gen_compare_spans():
         )
         lines.append("]")
         info.update(ok=True, entries=len(table), updates=[len(u) for u in updates])
-    except (Unsupported, SyntaxError, OSError) as exc:
+    except Exception as exc:  # Unsupported, SyntaxError, OSError, or anything the executed module raises
         lines.append(f"-- translator failure: {exc!r}".replace("\n", " "))
         lines.append("def translatorOk : Bool := false")
         lines.append("def table : List (Codes × PyExpr) := []")
